@@ -52,7 +52,6 @@ class C13(Prop):
         "PrefVerif.C13.sptWitness_iff",
         "PrefVerif.C13.isSPOnTree_sound",
         "PrefVerif.C13.isSPOnTree_spanning",
-        "PrefVerif.C13.connectedIn_iff'",
     ]
     rule = ("exhaustive: all profiles of <= 3 distinct orders over 3 alternatives and <= 2 over 4; random m<=6, n<=5 "
             "against brute force over spanning trees; planted tree-single-peaked profiles up to m=25 and one-swap "
